@@ -394,3 +394,137 @@ pub fn in_exact_pool(ring: &[V]) -> bool {
 pub fn ring_json(ring: &[V]) -> J {
     J::Arr(ring.iter().map(|v| J::Arr(vec![J::hex(v[0]), J::hex(v[1])])).collect())
 }
+
+
+/// Every public accessor of a shape must describe the same vertices as the dump (which is
+/// built from `points()` / `parts()` / `rings()` / `patches()`): indexed accessors, `Index`
+/// impls, counts, `into_inner`, `AsRef`. Returns the name of the first accessor that disagrees.
+pub fn accessor_disagreement(s: &Shape) -> Option<String> {
+    // comparisons go through the bit-level dump of sub-slices so that NaN measures compare equal
+    macro_rules! multipoint {
+        ($m:expr, $f:expr) => {{
+            let m = $m;
+            let pts = m.points();
+            for i in 0..pts.len() {
+                match m.point(i) {
+                    Some(p) if $f(p) == $f(&pts[i]) && $f(&m[i]) == $f(&pts[i]) => {}
+                    _ => return Some(format!("point({})/Index", i.min(2))),
+                }
+            }
+            if m.point(pts.len()).is_some() {
+                return Some("point(len)".into());
+            }
+            let inner = m.clone().into_inner();
+            if inner.len() != pts.len() || inner.iter().zip(pts).any(|(a, b)| $f(a) != $f(b)) {
+                return Some("into_inner".into());
+            }
+            let v: Vec<_> = m.clone().into();
+            if v.len() != pts.len() {
+                return Some("Into<Vec>".into());
+            }
+        }};
+    }
+    macro_rules! polyline {
+        ($m:expr, $f:expr) => {{
+            let m = $m;
+            let parts = m.parts();
+            let mut total = 0;
+            for i in 0..parts.len() {
+                total += parts[i].len();
+                match m.part(i) {
+                    Some(p) if p.len() == parts[i].len() && p.iter().zip(&parts[i]).all(|(a, b)| $f(a) == $f(b)) => {}
+                    _ => return Some(format!("part({})", i.min(2))),
+                }
+            }
+            if m.part(parts.len()).is_some() {
+                return Some("part(len)".into());
+            }
+            if m.total_point_count() != total {
+                return Some("total_point_count".into());
+            }
+            let inner = m.clone().into_inner();
+            if inner.len() != parts.len() || inner.iter().zip(parts).any(|(a, b)| a.len() != b.len() || a.iter().zip(b).any(|(x, y)| $f(x) != $f(y))) {
+                return Some("into_inner".into());
+            }
+        }};
+    }
+    macro_rules! polygon {
+        ($m:expr, $f:expr) => {{
+            let m = $m;
+            let rings = m.rings();
+            let mut total = 0;
+            for i in 0..rings.len() {
+                let pts = rings[i].points();
+                total += pts.len();
+                let r = match m.ring(i) {
+                    Some(r) => r,
+                    None => return Some(format!("ring({})", i.min(2))),
+                };
+                let same_role = matches!((r, &rings[i]), (PolygonRing::Outer(_), PolygonRing::Outer(_)) | (PolygonRing::Inner(_), PolygonRing::Inner(_)));
+                if !same_role || r.len() != pts.len() || r.is_empty() != pts.is_empty() || r.points().iter().zip(pts).any(|(a, b)| $f(a) != $f(b)) {
+                    return Some(format!("ring({})", i.min(2)));
+                }
+                let as_ref: &[_] = rings[i].as_ref();
+                if as_ref.len() != pts.len() {
+                    return Some("PolygonRing::as_ref".into());
+                }
+                for k in 0..pts.len() {
+                    if $f(&rings[i][k]) != $f(&pts[k]) {
+                        return Some("PolygonRing::Index".into());
+                    }
+                }
+                let inner = rings[i].clone().into_inner();
+                if inner.len() != pts.len() || inner.iter().zip(pts).any(|(a, b)| $f(a) != $f(b)) {
+                    return Some("PolygonRing::into_inner".into());
+                }
+            }
+            if m.ring(rings.len()).is_some() {
+                return Some("ring(len)".into());
+            }
+            if m.total_point_count() != total {
+                return Some("total_point_count".into());
+            }
+            if m.clone().into_inner().len() != rings.len() {
+                return Some("into_inner".into());
+            }
+        }};
+    }
+    match s {
+        Shape::NullShape | Shape::Point(_) | Shape::PointM(_) | Shape::PointZ(_) => {}
+        Shape::Multipoint(m) => multipoint!(m, v2),
+        Shape::MultipointM(m) => multipoint!(m, vm),
+        Shape::MultipointZ(m) => multipoint!(m, vz),
+        Shape::Polyline(m) => polyline!(m, v2),
+        Shape::PolylineM(m) => polyline!(m, vm),
+        Shape::PolylineZ(m) => polyline!(m, vz),
+        Shape::Polygon(m) => polygon!(m, v2),
+        Shape::PolygonM(m) => polygon!(m, vm),
+        Shape::PolygonZ(m) => polygon!(m, vz),
+        Shape::Multipatch(m) => {
+            let patches = m.patches();
+            let mut total = 0;
+            for i in 0..patches.len() {
+                let pts = patches[i].points();
+                total += pts.len();
+                match m.patch(i) {
+                    Some(p) if patch_kind(p) == patch_kind(&patches[i]) && p.points().len() == pts.len() && p.points().iter().zip(pts).all(|(a, b)| vz(a) == vz(b)) => {}
+                    _ => return Some(format!("patch({})", i.min(2))),
+                }
+                let as_ref: &[PointZ] = patches[i].as_ref();
+                if as_ref.len() != pts.len() {
+                    return Some("Patch::as_ref".into());
+                }
+            }
+            if m.patch(patches.len()).is_some() {
+                return Some("patch(len)".into());
+            }
+            if m.total_point_count() != total {
+                return Some("total_point_count".into());
+            }
+            if m.clone().into_inner().len() != patches.len() {
+                return Some("into_inner".into());
+            }
+        }
+    }
+    None
+}
